@@ -19,7 +19,6 @@ import (
 	"path/filepath"
 	"sort"
 	"strings"
-	"sync"
 	"time"
 
 	"golang.org/x/tools/go/packages"
@@ -447,29 +446,23 @@ func master(cfg *config) int {
 	if nw < 1 {
 		nw = 1
 	}
+	// workers are started lazily: loading the program costs seconds of CPU per
+	// worker, so small explorations run on few workers
 	workers := make([]*wproc, nw)
-	var wgStart sync.WaitGroup
-	var startErr error
-	var mu sync.Mutex
-	for k := 0; k < nw; k++ {
-		wgStart.Add(1)
-		go func(k int) {
-			defer wgStart.Done()
-			w, err := startWorker(cfg, k)
-			mu.Lock()
-			defer mu.Unlock()
-			if err != nil {
-				startErr = err
-				return
-			}
-			workers[k] = w
-		}(k)
-	}
-	wgStart.Wait()
-	if startErr != nil {
-		fmt.Fprintln(os.Stderr, startErr)
+	w0, err := startWorker(cfg, 0)
+	if err != nil {
+		fmt.Fprintln(os.Stderr, err)
 		return 3
 	}
+	workers[0] = w0
+	started := 1
+	starting := 0
+	type startMsg struct {
+		k   int
+		w   *wproc
+		err error
+	}
+	startCh := make(chan startMsg, nw)
 	sum.LoadSec = time.Since(t0).Seconds()
 
 	// work queue (LIFO)
@@ -490,10 +483,7 @@ func master(cfg *config) int {
 		err error
 	}
 	results := make(chan resMsg, nw)
-	idle := []int{}
-	for k := 0; k < nw; k++ {
-		idle = append(idle, k)
-	}
+	idle := []int{0}
 	inflight := 0
 	stop := ""
 	funcs := map[string]bool{}
@@ -533,10 +523,47 @@ func master(cfg *config) int {
 			}
 			dispatch(k, it)
 		}
-		if inflight == 0 {
-			break
+		// grow the pool when there is a backlog
+		for started+starting < nw && stop == "" && len(queue) > 2*(started+starting) {
+			k := started + starting
+			starting++
+			go func(k int) {
+				w, err := startWorker(cfg, k)
+				startCh <- startMsg{k, w, err}
+			}(k)
 		}
-		m := <-results
+		if inflight == 0 && (starting == 0 || len(queue) == 0 || stop != "") {
+			if starting > 0 {
+				// drain pending starts so the processes can be reaped
+				for starting > 0 {
+					sm := <-startCh
+					starting--
+					if sm.err == nil {
+						workers[sm.k] = sm.w
+						started++
+					}
+				}
+			}
+			if inflight == 0 && (len(queue) == 0 || stop != "") {
+				break
+			}
+			continue
+		}
+		var m resMsg
+		select {
+		case sm := <-startCh:
+			starting--
+			if sm.err != nil {
+				sum.Errors = append(sum.Errors, sm.err.Error())
+				stop = "worker-failure"
+			} else {
+				workers[sm.k] = sm.w
+				started++
+				idle = append(idle, sm.k)
+			}
+			continue
+		case m = <-results:
+		}
 		inflight--
 		if m.err != nil {
 			sum.Errors = append(sum.Errors, m.err.Error())
@@ -618,6 +645,7 @@ func master(cfg *config) int {
 			w.cmd.Wait()
 		}
 	}
+	sum.Workers = started
 	sum.Exhaustive = stop == "" && len(queue) == 0
 	sum.StopReason = stop
 	for f := range funcs {
